@@ -562,7 +562,14 @@ func TestVerifC01Concurrent(t *testing.T) {
 		st.Eval()
 		timex.VerifFreeze(vbase)
 		name := fmt.Sprintf("verif-c01c-%d", atomic.AddInt64(&brkSeq, 1))
-		b := breaker.GetBreaker(name)
+		// cold start: nobody has asked for this name before; every goroutine fetches the breaker by name
+		// itself, all released together, and keeps its handle (as mon.Model, the interceptors and httpc do).
+		// There is one breaker per name, so all of their calls are recorded in the same window.
+		cold := rapid.Bool().Draw(t, "coldStart")
+		var b breaker.Breaker
+		if !cold {
+			b = breaker.GetBreaker(name)
+		}
 		g := rapid.IntRange(2, 32).Draw(t, "goroutines")
 		per := rapid.IntRange(1, 60).Draw(t, "callsPerGoroutine")
 		failPct := rapid.SampledFrom([]int{0, 30, 70, 100}).Draw(t, "failPct")
@@ -584,10 +591,18 @@ func TestVerifC01Concurrent(t *testing.T) {
 		accErr := errors.New("acc")
 		reqErr := errors.New("req")
 		acceptable := func(err error) bool { return err == nil || err == accErr }
+		startGate := make(chan struct{})
+		handles := make([]breaker.Breaker, g)
 		for i := 0; i < g; i++ {
 			wg.Add(1)
-			go func(pl []plan) {
+			go func(gi int, pl []plan) {
 				defer wg.Done()
+				<-startGate
+				b := b
+				if cold {
+					b = breaker.GetBreaker(name)
+				}
+				handles[gi] = b
 				for _, p := range pl {
 					ran, fbRan := 0, 0
 					req := func() error {
@@ -667,11 +682,21 @@ func TestVerifC01Concurrent(t *testing.T) {
 						bad.Store(fmt.Sprintf("panic not re-raised: %v", pan))
 					}
 				}
-			}(plans[i])
+			}(i, plans[i])
 		}
+		close(startGate)
 		wg.Wait()
 		if v := bad.Load(); v != nil {
 			t.Fatalf("concurrent phase: %v", v)
+		}
+		if cold {
+			b = breaker.GetBreaker(name)
+			for gi, h := range handles {
+				if h != b {
+					t.Fatalf("law 7 (one window per breaker name): goroutine %d of %d, asking for breaker %q at the same time as the others, was handed another object than the one registered under that name: its calls are recorded nowhere", gi, g, name)
+				}
+			}
+			st.Class("cold-start")
 		}
 		sum, s, f, d, ok := breaker.VerifCounts(b)
 		if !ok {
